@@ -178,6 +178,7 @@ type State struct {
 	wlog    []int // ids of cells written (stores), in order
 	unfolded map[int]bool // recursive spec applications already unfolded in this state (copy on write)
 	nalloc  int           // number of objects moved into symbolic regions on this path
+	wits    []*Term       // witnesses of the existential clauses assumed on this path
 	cutMark int           // cell counter when the innermost cut loop was entered (objects older than that are not fresh inside it)
 	focusSchemas bool     // a focused proof state that keeps the instances of quantified preconditions
 	reqFacts []*Term      // the contract's unquantified preconditions (for focus requires)
@@ -209,6 +210,7 @@ func (s *State) fork() *State {
 		unfolded: s.unfolded,
 		nalloc:  s.nalloc,
 		cutMark: s.cutMark,
+		wits:    s.wits[:len(s.wits):len(s.wits)],
 		focusSchemas: s.focusSchemas,
 		reqFacts: s.reqFacts[:len(s.reqFacts):len(s.reqFacts)],
 	}
